@@ -50,7 +50,7 @@ __CPROVER_ensures((page->free == NULL && g_cap0 < page->reserved) ==> (g_ext_n =
 /* ================= the generic allocation path (C04, C06, C07, C08) =================
    (no ghost pointer is dereferenced and no callee contract returns a pre-existing pointer: both make the queries explode;
    the page search yields a fresh page descriptor or NULL, and the page allocator records the facts about the page it was given) */
-bool g_f1_null, g_f2_null;                    /* logical: does the first / second page search fail? */
+bool g_f1_null, g_f2_null;                    /* logical: does the first / second page search fail? (used by stubs/bodies/find_page.c) */
 size_t g_find_n, g_find_size; size_t g_collect2_n, g_collect2_forced_n; size_t g_drain_n, g_deferred_n;
 size_t g_pm_n; bool g_pm_zero; size_t g_pm_size; void* g_pm_ret; bool g_pm_huge, g_pm_full; size_t g_pm_bs;
 size_t g_tofull_n; size_t g_mz_n; void* g_mz_p; size_t g_mz_size;
@@ -72,9 +72,9 @@ __CPROVER_requires(page != NULL) __CPROVER_assigns(g_pm_n, g_pm_zero, g_pm_size,
 static void c_page_to_full_rec(mi_page_t* page, mi_page_queue_t* pq) __CPROVER_requires(1) __CPROVER_assigns(g_tofull_n) __CPROVER_ensures(g_tofull_n == __CPROVER_old(g_tofull_n) + 1);
 static inline void _mi_memzero_aligned(void* dst, size_t n)
 __CPROVER_requires(1) __CPROVER_assigns(g_mz_n, g_mz_p, g_mz_size) __CPROVER_ensures(g_mz_n == __CPROVER_old(g_mz_n) + 1 && g_mz_p == dst && g_mz_size == n);
-uint32_t g_gc0;
+long g_gc0;
 void* _mi_malloc_generic(mi_heap_t* heap, size_t size, bool zero, size_t huge_alignment)
-__CPROVER_requires(__CPROVER_is_fresh(heap, sizeof(mi_heap_t)) && heap->generic_count == g_gc0 && heap->generic_collect_count <= ((size_t)1 << 40) && g_pm_ret != NULL)
+__CPROVER_requires(__CPROVER_is_fresh(heap, sizeof(mi_heap_t)) && heap->generic_count == g_gc0 && g_gc0 >= 0 && g_gc0 < ((long)1 << 40) && heap->generic_collect_count <= ((size_t)1 << 40) && g_pm_ret != NULL)
 __CPROVER_requires(g_find_n == 0 && g_collect2_n == 0 && g_collect2_forced_n == 0 && g_drain_n == 0 && g_deferred_n == 0 && g_pm_n == 0 && g_tofull_n == 0 && g_mz_n == 0)
 __CPROVER_assigns(heap->generic_count, heap->generic_collect_count, g_find_n, g_find_size, g_collect2_n, g_collect2_forced_n, g_drain_n, g_deferred_n, g_pm_n, g_pm_zero, g_pm_size, g_pm_huge, g_pm_bs, g_pm_full, g_tofull_n, g_mz_n, g_mz_p, g_mz_size)
 /* C08: every 100th generic allocation drains the delayed frees of other threads */
